@@ -165,7 +165,7 @@ func paren(p prec, e Expr) string {
 func (b *BadNode) SQL() string {
 	var sql string
 	for _, tok := range b.Tokens {
-		if sql != "" && len(tok.Space) > 0 {
+		if sql != "" && (len(tok.Space) > 0 || len(tok.Comments) > 0) {
 			sql += " "
 		}
 		sql += tok.Raw
